@@ -82,7 +82,7 @@ def run(chk):
                     ops.append((b, bi, t, path.split("::")[-1], path))
         # direct assignments of the field other than construction
     names = sorted({o[3] for o in ops})
-    chk.floor("R-FIFO", "operations on Buffer.sixel_threads found", len(ops), 5)
+    chk.floor("R-FIFO", "operations on Buffer.sixel_threads found", len(ops), 3)
     for b, bi, t, nm, path in ops:
         ok = nm in ALLOWED_QUEUE_OPS and ("VecDeque" in path)
         chk.obligation(ok)
@@ -332,7 +332,7 @@ def arrival_order(chk, f, poll):
             if field_of(eb.operand(t["args"][0])) == "sixels" or _alias_of_field(b, t["args"][0], "sixels"):
                 path = t["callee"].get("resolved") or t["callee"].get("path") or "?"
                 ops.append((b, t, path.split("::")[-1], path))
-    chk.floor("R-ARRIVAL", "operations on the image list", len(ops), 12)
+    chk.floor("R-ARRIVAL", "operations on the image list", len(ops), 8)
     for b, t, nm, path in ops:
         ok = nm in ORDER_SAFE
         chk.obligation(ok)
